@@ -58,6 +58,15 @@ Theorem C08_external_list : forall ign_a td rviews,
       (filter (fun r => negb (CdeSpec.same_course r)) (filter (CdeSpec.ignored ign_a) rviews)).
 Proof. exact CdeQuality.spec_quality_penalties. Qed.
 
+(* ... and the instructors it counts (each with penalty 0) are exactly the ignored registrations that instruct their assigned course AND have
+   a valid choice: "per participant with choices" -- instructor-only participants are not rated, pre-assigned or optimised (defect D18,
+   fixed by 2b07851: every ignored instructor was counted) *)
+Theorem C08_external_instructors : forall ign_a td rviews,
+  fst (CdeSpec.spec_quality ign_a td rviews) =
+  List.length (filter (fun r => CdeSpec.same_course r && CdeSpec.has_choices r) (filter (CdeSpec.ignored ign_a) rviews)).
+Proof. reflexivity. Qed.
+
+Check C08_external_instructors.
 Check C08_external_rank. Check C08_first_rank. Check C08_external_list. Check C08_score_node. Check C08_score. Check C08_quality. Check C08_max.
 Print Assumptions C08_score_node.
 Print Assumptions C08_score.
@@ -66,3 +75,4 @@ Print Assumptions C08_max.
 Print Assumptions C08_external_rank.
 Print Assumptions C08_first_rank.
 Print Assumptions C08_external_list.
+Print Assumptions C08_external_instructors.
